@@ -54,6 +54,9 @@ snippet("sum", "def f(a):\n    return a.sum() + np.sum(a)", [(A5,), (ints(),)], 
 snippet("diff", "def f(a):\n    return np.diff(a)", [(A5,), (ints(2),)])
 snippet("where-minmax", "def f(a, b):\n    return np.where(a > b, np.minimum(a, 2), np.maximum(b, 0))", [(A5, ints(1, 1, 9, 0, 5))])
 snippet("append-insert", "def f(a, p):\n    return np.append(np.insert(a, p, 77), 88)", [(A5, p) for p in (0, 2, 5)])
+snippet("insert-multi", "def f(a, idx, v):\n    return np.insert(a, idx, v)", [(A5, ints(0, 2, 5), ints(70, 71, 72)), (A5, ints(1, 3), 0), (A5, ints(), ints()), (A5, ints(5), 9)], exact=False)
+snippet("insert-gaps", "def f(s, e):\n    m = np.flatnonzero(s[1:] != e[:-1])\n    return np.concatenate([np.insert(s, m + 1, e[m]), np.insert(e, m + 1, 0)])",
+        [(ints(0, 5, 9, 20), ints(5, 7, 20, 22)), (ints(1, 2), ints(2, 3)), (ints(3,), ints(4,))], exact=False)
 snippet("concatenate", "def f(a, b):\n    return np.concatenate([a, b, a[:1]])", [(A5, A6), (ints(), ints(1))])
 snippet("delete", "def f(a, k, m):\n    return np.delete(a, [k * (j + 1) - 1 - m for j in range(2)])", [(np.arange(10), 4, 0), (np.arange(10), 4, 1), (np.arange(9), 3, 2)])
 snippet("searchsorted", "def f(t, x):\n    return np.searchsorted(t, x, side='right') + 100 * np.searchsorted(t, x, side='left')", [(A6, ints(-1, 0, 1, 2, 3, 9, 10))])
